@@ -12,6 +12,25 @@ def _some_line_ends_with_colon(text):
     return False
 
 
+REST_FIELDS = (":param", ":type", ":cvar", ":ivar", ":var", ":raises", ":return", ":rtype")
+
+
+def _empty_name_token(text):
+    """some field line of the docstring has an empty (or asterisks-only) name token"""
+    for line in text.splitlines():
+        t = line.strip()
+        rest_field = False
+        for f in REST_FIELDS:
+            if t.startswith(f):
+                rest_field = True
+        if rest_field:
+            if " :" in t or "*:" in t or t.startswith(":param:") or t.startswith(":type:"):
+                return True
+        elif t.startswith(":") or t.startswith("("):
+            return True
+    return False
+
+
 def _entry_wf(where, entry, check_typ_parses=True, source_text=None):
     if not isinstance(entry, dict):
         return "%s: entry is not a mapping" % where
@@ -74,7 +93,7 @@ def wf(ir, check_typ_parses=True, source_text=None):
         if len(name) == 0:
             from chx.ob import known_active
 
-            if source_text is not None and known_active("F18") and (" :" in source_text or ":param:" in source_text or "*:" in source_text):
+            if source_text is not None and known_active("F18") and _empty_name_token(source_text):
                 continue  # known finding F18: a ReST field with an empty name token yields a parameter called ""
             return "parameter name is empty"
         if name.startswith("*"):
